@@ -451,7 +451,7 @@ def gen_request(r, scratch, idx, kind=None):
   """A generated program (files on disk under scratch) and its compilable predicates."""
   kind = kind or r.choice(['nonrec', 'nonrec', 'rec', 'rec', 'functor', 'imports', 'imports', 'incant',
                    'needs_incant', 'bad', 'flags', 'dialect_rec', 'typed', 'typed', 'attach_rel',
-                   'combine', 'combine', 'duck_stop', 'duck_stop', 'udf'])
+                   'combine', 'combine', 'duck_stop', 'duck_stop', 'udf', 'misc', 'misc'])
   root = None
   flags = None
   bad = False
@@ -477,6 +477,43 @@ def gen_request(r, scratch, idx, kind=None):
       extra = '@Recursive(%s, %d%s);\n' % (name, r.choice([d, -1]) if 'diamond' in mode else d, mode)
     text = engine_line(r, eng) + extra + gen.render(p, engine_line=False)
     preds = gen.idb_names(p)
+  elif kind == 'misc':
+    # a spread of everyday features in one program: plan annotations, if-then-else, records,
+    # lists, negation, several-body aggregation, string building, ArgMax, `in`
+    eng = r.choice(['sqlite', 'sqlite', 'psql', 'duckdb', 'bigquery'])
+    names = r.sample(['apple', 'pear', 'fig', 'kiwi', 'plum', 'lime', 'date', 'yam'], 4)
+    nums = [r.randint(1, 6) for _ in names]
+    P = dict(zip(['Item', 'Helper', 'Plain', 'Ranked', 'Size3', 'Rec', 'Names', 'Total', 'NoBig', 'Pairs', 'Cat',
+                  'InList', 'Best', 'Impl'],
+                 r.sample(['Item', 'Helper', 'Plain', 'Ranked', 'Size3', 'Rec', 'Names', 'Total', 'NoBig', 'Pairs',
+                           'Cat', 'InList', 'Best', 'Impl', 'Alpha', 'Beta', 'Gamma', 'Delta', 'Kappa', 'Omega',
+                           'Sales_q1', 'Node7'], 14)))
+    ann = []
+    if r.random() < 0.7:
+      ann.append('@OrderBy(%(Ranked)s, "col1 desc", "col0");\n@Limit(%(Ranked)s, %%d);' % P % r.randint(1, 4))
+    ann.append(r.choice(['@With(%(Helper)s);', '@NoWith(%(Helper)s);', '']) % P)
+    ann.append(r.choice(['@NoInject(%(Plain)s);', '']) % P)
+    if r.random() < 0.3:
+      ann.append('@Ground(%(Helper)s);' % P)
+    facts = ' '.join('%s("%s", %d);' % (P['Item'], a, b) for a, b in zip(names, nums))
+    body = ('%(Helper)s(name, n * 2) :- %(Item)s(name, n);\n'
+            '%(Plain)s(name) :- %(Item)s(name, n), n > 1;\n'
+            '%(Ranked)s(name, n) :- %(Helper)s(name, n), %(Plain)s(name);\n'
+            '%(Size3)s(name, (if n > 4 then "big" else if n > 2 then "mid" else "small")) :- %(Item)s(name, n);\n'
+            '%(Rec)s(r: {name:, n:}) :- %(Item)s(name, n);\n'
+            '%(Names)s() List= name :- %(Item)s(name, n);\n'
+            '%(Total)s(kind) += n :- %(Size3)s(name, kind), %(Item)s(name, n);\n'
+            '%(Total)s("all") += n :- %(Item)s(name, n);\n'
+            '%(NoBig)s(name) :- %(Item)s(name, n), ~%(Size3)s(name, "big");\n'
+            '%(Pairs)s(a, b) :- %(Item)s(a, x), %(Item)s(b, y), x < y, a != b;\n'
+            '%(Cat)s(name ++ "-" ++ ToString(n)) :- %(Item)s(name, n);\n'
+            '%(InList)s(name) :- %(Item)s(name, n), n in [1, 3, 7];\n'
+            '%(Best)s() ArgMax= name -> n :- %(Item)s(name, n), name != "kiwi";\n'
+            '%(Impl)s(name, v) :- %(Item)s(name, n), v == (if n == 5 then 1 else 0);\n') % P
+    lines_ = body.strip().split('\n')
+    r.shuffle(lines_)
+    text = '@Engine("%s");\n' % eng + '\n'.join(a for a in ann if a) + '\n' + facts + '\n' + '\n'.join(lines_) + '\n'
+    preds = r.sample([P[k] for k in P if k != 'Item'], 5)
   elif kind == 'udf':
     # typed dialects: compiled functions (-->) and user-defined aggregations over semigroups
     eng = r.choice(['psql', 'psql', 'duckdb', 'bigquery'])
